@@ -11,6 +11,16 @@ func numVal(v any) (f float64, isNum bool) {
 		return float64(t), true
 	case int32:
 		return float64(t), true
+	case uint64:
+		if t < 1<<53 {
+			return float64(int64(t)), true // (signed conversion: cheap for the solver)
+		}
+		return float64(t), true
+	case uint:
+		if t < 1<<53 {
+			return float64(int64(t)), true
+		}
+		return float64(t), true
 	case float64:
 		return t, true
 	case float32:
